@@ -1056,18 +1056,24 @@ macro_rules! target_sub {
     }};
 }
 
+fn run_stacked_principal(case: &super::c16::SgCase, ctx: &mut Ctx) -> R {
+    super::c16::run_stacked_mode(case, ctx, true)
+}
+
 pub fn property() -> Property {
     Property {
         id: "C06",
         rule: "case = (target in {harness Acl, example nft-access-control, example ownable}, start ledger, initial role-admin wiring and memberships applied through the \
                public entry points, history of <=40 (thorough 80) ops grant/revoke/renounce_role/set_role_admin/transfer_admin/accept/renounce_admin/guarded probe/advance over 4 roles and \
                5+1 accounts, caller by model-relative selector, auth mode Exact/Drop/Swap/Tamper/Surplus); non-trivial = >=1 successful revoke/renounce of a non-last index, >=1 successful \
-               grant by a role-admin holder who is not the admin and >=1 rejected privileged call (ownable: >=1 passed and >=1 rejected owner-guarded call); distinct = distinct serialised case",
+               grant by a role-admin holder who is not the admin and >=1 rejected privileged call (ownable: >=1 passed and >=1 rejected owner-guarded call; stacked-guards: only_owner / only_admin / only_role stacked with when_not_paused / when_paused in both orders on a harness contract, >=2 calls refused for a wrong or unauthorized principal while the pause gate was open and >=1 passed); distinct = distinct serialised case",
         subs: vec![
             target_sub!("acl", Target::Acl, 1200, 20000),
             target_sub!("nft-access-control", Target::Nft, 900, 14000),
             target_sub!("ownable", Target::Ownable, 400, 6000),
             Box::new(Fixed { name: "max-roles", slabs: max_roles_slabs, run: run_max_roles }),
+            // the guard macros stacked with the pause guards, in both orders: the principal half of the C16 harness contract
+            gen_sub::<super::c16::SgCase>("stacked-guards", 600, 12000, super::c16::sg_strategy_pub, run_stacked_principal),
         ],
         floors: vec![
             ("nontrivial", 55, 550),
